@@ -49,6 +49,9 @@ func c03Scenarios(tier core.Tier) []scenario {
 			Menu: chain.Menu{Recv: true, Sync: true, WalkSome: true, KeyEvents: true, Submit: []string{"sFee"}, Blocks: []string{"a1", "a2", "d2"}}},
 		{Name: "c03.family", Universe: "U-3way-honest", Depth: 6 + d, Orcs: orcs,
 			Menu: chain.Menu{Recv: true, Sync: true, Play: true, Submit: []string{"pP", "pC1", "pC2"}, Mine: 1, Blocks: []string{"a1", "b1"}}},
+		// pool transactions linked through key versions only; a peer block undoes the writer
+		{Name: "c03.pooldep", Universe: "U-kv-pool", Depth: 7 + d, Orcs: orcs,
+			Menu: chain.Menu{Recv: true, Sync: true, Play: true, Submit: []string{"pP", "rC", "rD", "wD"}, Mine: 1}},
 		{Name: "c03.defer", Universe: "U-3way", Depth: 5 + d, MaxCost: 1, Orcs: orcs,
 			Menu: chain.Menu{Recv: true, Sync: true, Defer: true, Submit: []string{"tS", "tA2", "tD2"}, Mine: 1, Blocks: []string{"a1", "a2", "b1", "b2"}}},
 	}
